@@ -155,6 +155,7 @@ class Central:
         self.mrand = self.na = self.nb = self.rpub = self.ppub = None
         self.disp = None
         self.stage = 0
+        self.ctr = 0     # the central's guess of the tool box' draw counter (to know a displayed passkey in advance)
         self.do("reset %s %s %d %s" % (variant, ioname, 1 if bond else 0, fill))
 
     def do(self, op):
@@ -199,12 +200,13 @@ class Central:
         self.do("findkey %d %d" % (e, rd_))
 
     # --- protocol steps ------------------------------------------------------------------
-    def request(self, sc=None, mutate=None):
+    def request(self, sc=None, mutate=None, io=None):
         if sc is None:
             sc = self.variant == "lesc" or (self.variant == "both" and self.rng.random() < 0.5)
-        io = self.rng.choice([0, 1, 2, 3, 4])
-        if sc and self.ioname == "dispyn" and self.rng.random() < 0.6:
-            io = self.rng.choice([1, 4])        # numeric comparison
+        if io is None:
+            io = self.rng.choice([0, 1, 2, 3, 4])
+            if sc and self.ioname == "dispyn" and self.rng.random() < 0.6:
+                io = self.rng.choice([1, 4])        # numeric comparison
         oobflag = 1 if self.rng.random() < 0.2 else 0
         auth = (0x08 if sc else 0) | self.rng.choice([0, 1, 4, 5, 0x10, 0x40, 0xc5 & ~0x08])
         req = [1, io, oobflag, auth, self.rng.choice([7, 16, 16, 16, 10]), self.rng.randrange(16), self.rng.randrange(16)]
@@ -219,6 +221,8 @@ class Central:
             self.stage = 1
             algo = guess_legacy_algo(self.ioname, io, oobflag, self.oob_avail)
             self.algo = algo
+            if not self.sc:
+                self.ctr += 1
         else:
             self.stage = 0
 
@@ -233,7 +237,7 @@ class Central:
         elif algo == "input":
             self.tk = le(self.kbd, 4) + [0] * 12
         elif algo == "display":
-            self.tk = None   # shown by the peripheral while it answers the confirm: guess, then fix below
+            self.tk = t_passkey(self.ctr)   # what the user will read off the display
         else:
             self.tk = ZERO16
         mc = t_c1(self.tk or ZERO16, self.mrand, p1, p2)
@@ -242,8 +246,8 @@ class Central:
         r = self.do("pdu 03" + hx(mc))
         if unhx(r.get("rsp", "-"))[:1] == [3]:
             self.stage = 2
-            if self.tk is None:
-                self.tk = le(int(r["disp"]), 4) + [0] * 12 if r.get("disp", "-") != "-" else ZERO16
+            if r.get("disp", "-") != "-" and le(int(r["disp"]), 4) + [0] * 12 == t_passkey(self.ctr):
+                self.ctr += 1
 
     def legacy_random(self, mutate=None):
         mr = self.mrand or self.rnd(16)
@@ -251,6 +255,8 @@ class Central:
             mr = self.rnd(16)
         r = self.do("pdu 04" + hx(mr))
         self.stage = 3 if unhx(r.get("rsp", "-"))[:1] == [4] else 0
+        if self.stage == 3 and self.bond:
+            self.ctr += 1
 
     def public_key(self, mutate=None):
         pk = self.rnd(64)
@@ -262,6 +268,7 @@ class Central:
         rsp = unhx(r.get("rsp", "-"))
         if rsp[:1] == [0x0c]:
             self.rpub, self.ppub, self.stage = pk, rsp[1:], 2
+            self.ctr += 2
 
     def poll(self):
         r = self.do("out")
@@ -348,6 +355,8 @@ def gen_session(live, rng, variant=None, ioname=None, bond=None, length=None, p_
     variant = variant or rng.choice(["legacy", "lesc", "both"])
     ioname = ioname or rng.choice(IOS[variant])
     bond = (rng.random() < 0.75) if bond is None else bond
+    if ioname not in ("none", "dispyn"):
+        bond = True      # managers without bonding data base are built for `none` and `dispyn` only
     c = Central(live, rng, variant, ioname, bond, rng.choice(["00", "ff"]))
     if rng.random() < 0.7:
         c.do("user " + rng.choice(["async", "sync1", "sync1", "sync0"]))
@@ -388,9 +397,9 @@ def gen_enumerated(live, rng, variant, ioname, bond, symbols, usermode):
         if c.dead:
             break
         if sym == "req":
-            c.request(sc=False)
+            c.request(sc=False, io=1 if ioname == "dispyn" else 4)
         elif sym == "reqsc":
-            c.request(sc=True)
+            c.request(sc=True, io=1 if ioname == "dispyn" else 4)
         elif sym == "conf":
             c.legacy_confirm()
         elif sym == "rand":
@@ -728,6 +737,13 @@ ENUM = {
 }
 
 
+PREFIXES = {
+    "legacy": [(["req", "conf"], "dispkbd", "async")],
+    "lesc": [(["reqsc", "pk", "out", "rand"], "dispyn", "async"), (["reqsc", "pk", "out", "rand"], "dispyn", "sync1")],
+    "both": [(["reqsc", "pk", "out", "rand"], "dispyn", "async"), (["req", "conf"], "dispyn", "async")],
+}
+
+
 def make_sessions(ctx, pid):
     rng = ctx.rng
     live = Live(ctx.harness())
@@ -742,23 +758,22 @@ def make_sessions(ctx, pid):
             bond = True if (pid == "C34" and i % 5) else None
             sessions.append(gen_session(live, rng, variant=variant, bond=bond, **emphasis))
         enumerated = 0
-        if ctx.thorough:
-            depth = 5
-            for variant, (symbols, cfgs) in sorted(ENUM.items()):
-                syms = symbols if pid == "C32" else [s for s in symbols if s != "unk"] + (["enc"] if pid == "C34" and variant != "lesc" else [])
-                d = depth if len(syms) <= 6 else 4 if pid != "C32" else 5
-                if len(syms) ** d > 40000:
-                    d -= 1
-                for ioname, mode in cfgs:
-                    for seq in itertools.product(syms, repeat=d):
-                        sessions.append(gen_enumerated(live, rng, variant, ioname, True, seq, mode))
-                        enumerated += 1
-        else:
-            for variant, (symbols, cfgs) in sorted(ENUM.items()):
-                for ioname, mode in cfgs:
-                    for seq in itertools.product(symbols, repeat=3):
-                        sessions.append(gen_enumerated(live, rng, variant, ioname, True, seq, mode))
-                        enumerated += 1
+        for variant, (symbols, cfgs) in sorted(ENUM.items()):
+            syms = symbols if pid == "C32" else [s for s in symbols if s != "unk"] + (["enc"] if pid == "C34" and variant != "lesc" else [])
+            for i, (ioname, mode) in enumerate(cfgs):
+                d = 3
+                if ctx.thorough:
+                    d = 5 if len(syms) ** 5 <= 8000 else 4
+                    d -= 1 if i else 0          # full depth for the first configuration of a variant
+                for seq in itertools.product(syms, repeat=d):
+                    sessions.append(gen_enumerated(live, rng, variant, ioname, True, seq, mode))
+                    enumerated += 1
+            # the same from the deepest protocol states: after the LESC random exchange (the user
+            # is being asked) and after the legacy confirm exchange
+            for prefix, ioname, mode in PREFIXES[variant]:
+                for seq in itertools.product(syms, repeat=4 if ctx.thorough else 3):
+                    sessions.append(gen_enumerated(live, rng, variant, ioname, True, tuple(prefix) + seq, mode))
+                    enumerated += 1
     finally:
         live.close()
     return sessions, enumerated
@@ -797,8 +812,9 @@ def run_prop(pid):
             if nontrivial:
                 res.distinct.add(hash(tuple(ops)))
         res.extra["enumerated_sessions"] = enumerated
-        res.extra["exhaustive_small_scope"] = ("all symbol sequences of depth %s per variant (see ENUM in comp/sm.py), values computed "
-                                               "adaptively so that in-order PDUs are valid") % ("4-5" if ctx.thorough else "3")
+        res.extra["exhaustive_small_scope"] = ("all symbol sequences of depth %s per variant from idle and of depth %s from the states after the "
+                                               "LESC random / legacy confirm exchange (ENUM, PREFIXES in comp/sm.py), values computed adaptively "
+                                               "so that in-order PDUs are valid") % (("4-5", "4") if ctx.thorough else ("3", "3"))
         res.samples = [" ; ".join(o[:40] for o in s[:12]) for s in sessions[:3]]
         return res
     return run
